@@ -22,6 +22,8 @@ INVALID_STMT = [
 ]
 INVALID_EXPR = ['"unterminated', "/unterminated", "(1 + ", "[1, 2", '{"a": 1', "1 + ", "* 2", "a ? b ? 1 : 2 : 3", "#", "1 @ 2", "\x00",
                 "99999999999999999999", "(3 = 4)", "f(1,, 2)", ")", "if", "(a ? 1 : b ? 2 : 3)", "(1 += 2)", '("s" -= 1)', "[1 *= 2]"]
+# characters that are no part of the language, written BETWEEN two tokens (blanks that are not the language's four blanks included)
+INVALID_EXPR += ["1 %s+ 2" % ch for ch in ["\x0b", "\x0c", "\x85", "\xa0", "\u2028", "\u2029", "\u3000", "\u1680", "\u2003", "\ufeff", "\x01", "\x7f", "\\", "&", "|", "~", "^", "`", "\u200b", "\x1c"]]
 # positions whose expression the compiler never translates (it only prints it): the right operand of `.` and the callee of a call
 REPEATED_KEY_CONTEXTS = ['x = {"k": 1, "k": %s};', "x = {1: 0, 1: %s};", 'return {"a": 1, "b": 2, "a": %s};', 'x = f({true: 1, true: %s});']
 UNCOMPILED_CONTEXTS = ["x = a.%s;", "x = %s(3);", "return a.%s;", "if (a.%s) { x = 1; }", "x = f(1)%s;" if False else "x = a[0].%s;", "function q() { return %s(); }"]
